@@ -7,6 +7,7 @@ import os
 import re
 import shutil
 import subprocess
+import shlex
 import sys
 import tempfile
 import time
@@ -135,7 +136,8 @@ def vo_current(relv):
 
 
 def coqc(path, timeout=600):
-    return sh(["coqc", "-Q", THEORIES, "DDS", path], timeout=timeout, cwd=os.path.dirname(path))
+    # generated case files hold large literal terms: coqc gets the largest stack the hard limit allows
+    return sh("ulimit -s $(ulimit -H -s) 2>/dev/null; exec coqc -Q " + shlex.quote(THEORIES) + " DDS " + shlex.quote(path), timeout=timeout, cwd=os.path.dirname(path))
 
 
 def check_property_file(prop, allowed_axioms=()):
